@@ -123,6 +123,15 @@ fn gen_file(w: &World, scale: Scale, max_recs: u64, max_len: u64) -> FileModel {
         let seq: Vec<u8> = (0..len)
             .map(|i| BASES[(a + i * b + i / 7 + i / 61 + i / 4099) % BASES.len()])
             .collect();
+        // 1 record in 15 (small files only) has no bases at all: header line only, and the row
+        // samtools faidx writes for it carries 0 for both line widths
+        let seq = if scale == Scale::Small && w.chance(1, 15) {
+            w.probe("empty_record");
+            Vec::new()
+        } else {
+            seq
+        };
+        let len = seq.len();
         let desc = w.chance(1, 3);
         // a single-line record may be described by its own length (what samtools writes) or by
         // the nominal width: both match the file
@@ -151,14 +160,20 @@ fn gen_file(w: &World, scale: Scale, max_recs: u64, max_len: u64) -> FileModel {
                 bytes.extend_from_slice(term);
             }
         }
-        let lb = if p.own_len_as_width { len } else { p.width };
+        let lb = if len == 0 {
+            0
+        } else if p.own_len_as_width {
+            len
+        } else {
+            p.width
+        };
         recs.push(RecModel {
             name: p.name,
             seq: p.seq,
             width: lb,
             offset,
             line_bases: lb as u64,
-            line_bytes: (lb + term.len()) as u64,
+            line_bytes: if lb == 0 { 0 } else { (lb + term.len()) as u64 },
         });
     }
     // The rows of a .fai need not be in file order (a sorted or subsetted index still matches the
@@ -203,6 +218,9 @@ impl FileModel {
     /// file offset of base i of record r
     fn off(&self, r: usize, i: u64) -> u64 {
         let rec = &self.recs[r];
+        if rec.line_bases == 0 {
+            return rec.offset;
+        }
         rec.offset + (i / rec.line_bases) * rec.line_bytes + i % rec.line_bases
     }
     fn json(&self) -> serde_json::Value {
@@ -548,7 +566,7 @@ fn run_history(w: &W, f: &FileModel, steps: u64, allow_faults: bool, allow_cut: 
         let span = match st {
             Fetched::Region(r) | Fetched::Unknown(Some(r)) if r.s <= r.e && r.e <= f.recs[r.rid].seq.len() as u64 => {
                 let rec = &f.recs[r.rid];
-                (r.e - r.s) + ((r.e - r.s) / rec.line_bases + 2) * (rec.line_bytes - rec.line_bases) + 16
+                (r.e - r.s) + ((r.e - r.s) / rec.line_bases.max(1) + 2) * (rec.line_bytes - rec.line_bases) + 16
             }
             _ => 16,
         };
@@ -922,7 +940,7 @@ pub fn property() -> Property {
             "start_on_line_boundary", "stop_on_line_boundary", "empty_interval_read", "iterator_dropped_half_way", "operation_after_dropped_iterator",
             "read_after_failed_read", "exact_read_after_failed_operation", "operation_failed_by_injected_fault", "cut_inside_requested_range",
             "cut_after_requested_range", "cut_inside_terminator_after_range", "short_file_reported_as_error", "fetch_rejected_unknown_target",
-            "file_without_final_terminator", "fai_rows_not_in_file_order", "magic_size_run", "large_regime", "many_records_regime", "huge_regime", "allpairs_sweep",
+            "file_without_final_terminator", "empty_record", "fai_rows_not_in_file_order", "magic_size_run", "large_regime", "many_records_regime", "huge_regime", "allpairs_sweep",
         ],
         quick_runs: 300_000,
         thorough_runs: 20_000_000,
